@@ -1,13 +1,18 @@
 CHECK = {
-    "suites": [suite("calls", "c04", 250, 20000, stdin=True)],
+    "suites": [suite("calls", "c04", 250, 20000, stdin=True),
+               suite("conc", "c04", 400, 20000, stdin=True, args=["-suite", "conc"])],
     "gen": [{"pkg": "extract_c04", "out": "lean/ClusterVerif/Gen/C04.lean"}],
     "lean_sources": ["ClusterVerif/Model/C04Source.lean", "ClusterVerif/Gen/C04.lean", "ClusterVerif/Model/Pin.lean", "ClusterVerif/Model/C04.lean", "ClusterVerif/Spec/C04.lean",
-                     "ClusterVerif/Model/C03.lean", "ClusterVerif/Spec/C03.lean", "ClusterVerif/Lemmas/C04.lean"],
+                     "ClusterVerif/Model/C03.lean", "ClusterVerif/Spec/C03.lean", "ClusterVerif/Lemmas/C04.lean",
+                     "ClusterVerif/Model/C04Faults.lean", "ClusterVerif/Spec/C04Conc.lean", "ClusterVerif/Lemmas/C04Faults.lean"],
     "rule": "histories of 4-25 Pin/PinPath/PinUpdate/Unpin/UnpinPath/rpc-pin calls over 12 CIDs (6 data, a sharded group), options drawn or derived "
             "from the stored pin with one field changed/added/removed, 5 default-factor settings, follower on/off, preloaded pinsets; every call is one case "
-            "with its explicit pre-state; non-trivial = every case (each call is constrained by the generic clauses); distinct by case line",
+            "with its explicit pre-state; a trailing !k makes the k-th consensus call of the API call fail; paths to meta / cluster-DAG / shard pins and unresolved paths; "
+            "cluster-DAG blocks complete / listing an absent shard / empty / unreachable; suite conc: two calls on one cid interleaved between read and consensus call (write order x stale/fresh read); "
+            "non-trivial = every case (each call is constrained by the generic clauses); distinct by case line",
     "trusted_base": ["FakeConsensus = real dsstate over an in-memory datastore applying LogPin/LogUnpin directly",
-                     "table-driven IPFS connector for Resolve/BlockGet; metrics.Store monitor; verif_export.go (VerifNewCluster, VerifPin)"],
+                     "table-driven IPFS connector for Resolve/BlockGet; metrics.Store monitor; verif_export.go (VerifNewCluster, VerifPin)",
+                     "FaultConsensus: a failing LogPin/LogUnpin is not applied (fail-then-commit is not modelled); the gate interleaves at the granularity read-phase / consensus calls"],
     "assumptions": ["the empty metadata key is not a real option (never serialised in requests)",
                     "user allocations are transient (never stored), so a re-pin that carries them is not 'identical'"],
 }
@@ -16,7 +21,10 @@ META = {
             "and every allocation admitted by the C03 relation, the result and pinset produced by the Lean model of cluster.go's pin/unpin/update logic satisfy "
             "every clause of the property (written from its text), and pinset well-formedness is preserved over any call sequence. The model is tied to the code "
             "by replaying thousands of seeded calls on the real Cluster (over a real dsstate) and comparing result, whole pinset and consensus log with the model, "
-            "and by evaluating the Lean property clauses on the implementation's own outputs.",
+            "and by evaluating the Lean property clauses on the implementation's own outputs. "
+            "Round 7: path operations proved equal to the cid operations on the resolved cid; consensus faults at every call position (stepF): every single-call operation is proved all-or-nothing, "
+            "the sharded Unpin is characterised at every fault position (sharded_unpin_fault_positions, unpin_retry_heals, unpin_fault_strands_meta) and the full all-or-nothing statement is refuted "
+            "(failed_call_is_noop_full_fails: known finding K41, replayed on the implementation); two overlapping calls as read/write phases under all six interleavings: last_writer_wins_wellformed.",
     "note": "Trusted: Lean kernel, hand-written model/spec, harness fakes (consensus = dsstate applying ops directly, table IPFS connector), verif_export.go. "
             "Allocation validity is delegated to C03.",
     "technique": "Lean 4 theorem over a step model + regenerated source text of the anchored functions checked against the transcribed snapshot (rfl) + differential correspondence per API call with explicit pre-state",
